@@ -20,3 +20,19 @@ void h_c13_collect_dependencies(void)
             __CPROVER_assert((s[i] & ~dout) == 0, "c13.collectDependencies.closed-under-initialiser-reads(any chain length)");
     REACH;
 }
+
+/* a parameter of the instantiated instance that is restricted (it reaches an array size / range bound there) passes the
+   restriction on to everything its argument depends on - judged by the INSTANTIATED INSTANCE's own set, which for a partial
+   instance differs from its template's */
+void w_c13_propagate(int np, unsigned r_old, unsigned r_templ, unsigned d0, unsigned d1, unsigned d2, unsigned r_new_in, unsigned* r_new_out);
+void h_c13_restricted_propagation(void)
+{
+    int np; unsigned ro, rt, d[3], rin, rout;
+    __CPROVER_assume(np >= 0 && np <= 3 && ro < 16 && rt < 16 && d[0] < 16 && d[1] < 16 && d[2] < 16 && rin < 16);
+    w_c13_propagate(np, ro, rt, d[0], d[1], d[2], rin, &rout);
+    unsigned want = rin;
+    for (int i = 0; i < 3; i++) if (i < np && ((ro >> i) & 1)) want |= d[i];
+    __CPROVER_assert(rout == want, "c13.instantiation.the-arguments-of-the-instantiated-instance's-restricted-parameters-become-restricted-(and-nothing-else)");
+    if (ro != rt) __CPROVER_assert(0, "reach:partial-instance-whose-set-differs-from-its-template's");
+    REACH;
+}
